@@ -37,10 +37,15 @@ def world_for(server, port=22, host=HOST, ip=IP, **kw):
     return vnet.World(servers={(ip, port): server}, resolver={host: [(int(fam), ip)]}, **kw)
 
 
-def audit(server, opts=('-n', '--skip-rate-test'), host=HOST, port=22, faults=None, world_kw=None, target=None):
+def audit(server, opts=('-n', '--skip-rate-test'), host=HOST, port=22, faults=None, world_kw=None, target=None, via_targets_file=False):
     w = world_for(server, port=port, host=host, faults=faults, **(world_kw or {}))
-    argv = list(opts) + [target if target is not None else (host if port == 22 else '%s:%d' % (host, port))]
-    return runner.run_cli(argv, w)
+    tgt = target if target is not None else (host if port == 22 else '%s:%d' % (host, port))
+    if via_targets_file:      # the same single target as the only line of a -T file (the multi-target code path)
+        path = tmp_path('single-target-%d.txt' % os.getpid())
+        with open(path, 'w') as f:
+            f.write(tgt + '\n')
+        return runner.run_cli(list(opts) + ['-T', path, '--threads', '1'], w)
+    return runner.run_cli(list(opts) + [tgt], w)
 
 
 def client_audit(client, opts=('-n',), port=2222, world_kw=None, faults=None):
@@ -129,13 +134,13 @@ def db_version(desc):
     return 'OpenSSH', desc, is_client
 
 
-def audit_sequence(servers, opts=('-n', '--skip-rate-test'), threads=1, ports=None, hosts=None):
+def audit_sequence(servers, opts=('-n', '--skip-rate-test'), threads=1, ports=None, hosts=None, lines=None):
     """Several targets in ONE invocation (-T file, one worker thread => list order).  -> (result, per-target outputs)
     Per-target outputs are text blocks, or JSON elements when -j is among the options."""
     from . import report as _r
     servers = list(servers)
     resolver, smap = {}, {}
-    lines = []
+    file_lines, lines = lines, []
     for i, s in enumerate(servers):
         h = hosts[i] if hosts else 'seq%d.example' % i
         ip = '10.9.%d.1' % (hash(h) % 200)
@@ -146,6 +151,8 @@ def audit_sequence(servers, opts=('-n', '--skip-rate-test'), threads=1, ports=No
         lines.append(h if port == 22 else '%s:%d' % (h, port))
     w = vnet.World(servers=smap, resolver=resolver)
     path = tmp_path('sequence-%d.txt' % os.getpid())
+    if file_lines is not None:
+        lines = list(file_lines)       # the targets as the caller wants them written (e.g. without the port the -p option supplies)
     with open(path, 'w') as f:
         f.write(''.join(l + '\n' for l in lines))
     res = runner.run_cli(list(opts) + ['-T', path, '--threads', str(threads)], w)
